@@ -10,6 +10,7 @@ import (
 	"errors"
 	"fmt"
 	"io"
+	"net"
 	"regexp"
 	"strconv"
 	"strings"
@@ -251,6 +252,21 @@ func (r *runner) fail(key, what string) {
 	r.c.Fail(r.t, key, what, r.p)
 }
 
+// giveUp abandons the case without a verdict: the harness could not open a
+// connection (listen backlog / ephemeral ports under load). Never a violation.
+func (r *runner) giveUp(what string) {
+	r.c.Inconclusive("%s", what)
+	if sk, ok := r.t.(interface{ SkipNow() }); ok {
+		sk.SkipNow()
+	}
+	panic("inconclusive: " + what)
+}
+
+func isDialErr(err error) bool {
+	var oe *net.OpError
+	return errors.As(err, &oe) && oe.Op == "dial"
+}
+
 var reBareNonFinite = regexp.MustCompile(`[:\[,]\s*([+-]?Inf|NaN)\s*[,\]}]`)
 
 // malformedKey maps a malformed JSON payload to its root-cause key.
@@ -280,6 +296,9 @@ func (r *runner) doRESP(c *t38.Conn, who, name string, args []string) t38.Value 
 			kind = "connection-closed:"
 		} else if !errors.Is(err, t38.ErrProtocol) {
 			kind = "transport:"
+		}
+		if isDialErr(err) {
+			r.giveUp(fmt.Sprintf("%s: %v", who, err))
 		}
 		r.fail(kind+name, fmt.Sprintf("%s: %s: %v", who, t38.CmdString(args), err))
 	}
@@ -408,12 +427,18 @@ func (r *runner) exec(i int, st *step) {
 	case "telnet":
 		vC, err := telnetDo(addr, args)
 		if err != nil {
+			if isDialErr(err) {
+				r.giveUp(err.Error())
+			}
 			r.fail("telnet-frame:"+name, fmt.Sprintf("telnet %s: %v", t38.CmdString(args), err))
 		}
 		r.check(2, 1, "C/telnet vs B/json", name, args, vC, rB)
 	case "native":
 		raw, err := nativeDo(addr, args)
 		if err != nil {
+			if isDialErr(err) {
+				r.giveUp(err.Error())
+			}
 			r.fail("native-frame:"+name, fmt.Sprintf("native %s: %v", t38.CmdString(args), err))
 		}
 		rC := r.decode("C/native", name, args, raw)
@@ -421,6 +446,9 @@ func (r *runner) exec(i int, st *step) {
 	case "httpget", "httppost":
 		h, err := httpDo(addr, args, lane == "httppost", "")
 		if err != nil {
+			if isDialErr(err) {
+				r.giveUp(err.Error())
+			}
 			r.fail("http-frame:"+name, fmt.Sprintf("%s %s: %v", lane, t38.CmdString(args), err))
 		}
 		rC := r.decode("C/"+lane, name, args, h.Body)
@@ -438,6 +466,9 @@ func (r *runner) exec(i int, st *step) {
 	case "ws":
 		raw, err := wsDo(addr, args)
 		if err != nil {
+			if isDialErr(err) {
+				r.giveUp(err.Error())
+			}
 			r.fail("ws-frame:"+name, fmt.Sprintf("ws %s: %v", t38.CmdString(args), err))
 		}
 		rC := r.decode("C/ws", name, args, raw)
@@ -602,12 +633,12 @@ func (r *runner) execDetached(name string, args []string) {
 	// RESP mode
 	ca, err := r.tr.srv[0].Dial()
 	if err != nil {
-		r.fail("transport:"+name, err.Error())
+		r.giveUp(err.Error())
 	}
 	defer ca.Close()
 	cb, err := r.tr.srv[1].Dial()
 	if err != nil {
-		r.fail("transport:"+name, err.Error())
+		r.giveUp(err.Error())
 	}
 	defer cb.Close()
 	if err := cb.SetJSON(true); err != nil {
@@ -698,6 +729,9 @@ func (r *runner) finish() {
 	for i, s := range r.tr.srv {
 		d, err := t38.TakeDump(s.Addr)
 		if err != nil {
+			if isDialErr(err) {
+				r.giveUp(err.Error())
+			}
 			r.fail("dump-failed", fmt.Sprintf("server %d: %v", i, err))
 		}
 		dumps[i] = d
@@ -719,6 +753,9 @@ func newRunner(tr *trio, c *ev.Collector, t ev.Failer, p *program, ex exclusions
 
 func (r *runner) run() {
 	if err := r.tr.reset(); err != nil {
+		if isDialErr(err) {
+			r.giveUp(err.Error())
+		}
 		panic("cannot reset the servers: " + err.Error())
 	}
 	for i := range r.p.Steps {
